@@ -17,7 +17,7 @@ def _ae(title):
     ae = AE(title)
     ae.add_supported_context(VERIFICATION)
     ae.add_requested_context(VERIFICATION)
-    ae.acse_timeout = ae.dimse_timeout = 5
+    ae.acse_timeout = ae.dimse_timeout = 20
     ae.network_timeout = 120          # no idle expiry within a history
     ae.connection_timeout = 2
     ae.maximum_associations = 1000    # the probes below leave threads waiting for a request for acse_timeout: never near the limit
